@@ -243,3 +243,40 @@ func HarnessC20Values() {
 		}
 	}
 }
+
+// c20Register registers a function of receiver type t that records its tag in *last.
+func c20Register(t int, name string, tag int, last *int) error {
+	switch t {
+	case 0:
+		return RegisterStrFunc(name, func(s string, args ...any) string { *last = tag; return s })
+	case 1:
+		return RegisterArrFunc(name, func(a []any, args ...any) []any { *last = tag; return a })
+	case 2:
+		return RegisterIntFunc(name, func(i int, args ...any) int { *last = tag; return i })
+	case 3:
+		return RegisterFloatFunc(name, func(f float64, args ...any) float64 { *last = tag; return f })
+	}
+	return RegisterBoolFunc(name, func(b bool, args ...any) bool { *last = tag; return b })
+}
+
+// HarnessC20Survive: a function registered for any receiver type stays registered and callable through every later
+// registration of any type and name: the later one neither replaces nor removes it, and its name stays taken.
+func HarnessC20Survive() {
+	last := 0
+	t1 := vChoice("type", 5)
+	vAssert(c20Register(t1, "a", 1, &last) == nil, "first-registration-succeeds")
+	laterRegs := 1 + vChoice("later-registrations", 2)
+	for i := 0; i < laterRegs; i++ {
+		t2 := vChoice("later-type", 5)
+		n2 := []string{"a", "b"}[vChoice("later-name", 2)]
+		err := c20Register(t2, n2, 2+i, &last)
+		if t2 == t1 && n2 == "a" {
+			vAssert(err != nil, "second-registration-for-the-same-type-fails")
+		}
+	}
+	out, err := EvaluateString("{{ "+c20Recv[t1]+".a() }}", nil)
+	vCover("custom-called")
+	vAssert(err == nil && out != "", "registered-function-is-callable")
+	vAssert(last == 1, "call-reaches-the-first-registered-function")
+	vAssert(c20Register(t1, "a", 9, &last) != nil, "second-registration-for-the-same-type-fails")
+}
